@@ -1,6 +1,8 @@
 """C04  Every builder returns a valid, stationary and (where promised) reversible model."""
 import itertools
 
+import os
+
 import numpy as np
 import z3
 
@@ -52,8 +54,11 @@ def stationarity(n, T, pi):
              conj([sum([pi[i] * T[i][j] for i in range(1, n)], pi[0] * T[0][j]) == pi[j] for j in range(n)]))]
 
 
-def builder_job(which, n, prior=False, eq=True, zero_rows=False, pattern=None):
+def builder_job(which, n, prior=False, eq=True, zero_rows=False, pattern=None, container=None, int_counts=False):
+    """container: None = ndarray, or one of csr/csc/coo/lil/dok/dia/bsr (symbolic shadow of the scipy.sparse class, see
+    symnp/sparse.py; replays use the real scipy class).  int_counts: integer element type, as assigns_to_counts returns."""
     b = loader.load('enspara.msm.builders')
+    from symnp import sparse as ssp
 
     def path(ctx):
         stubs.EIG_CONTRACT[0] = stubs.perron_contract
@@ -68,15 +73,43 @@ def builder_job(which, n, prior=False, eq=True, zero_rows=False, pattern=None):
         if prior:
             pr = core.fresh_real('prior')
             ctx.add(core.to_z3_real(pr) >= 0)
-        A = funcs.np_array(C, dtype=float)
+        if int_counts:
+            # integer counts with the same zero pattern / positivity as the real-valued ones
+            Ci = []
+            for i in range(n):
+                row = []
+                for j in range(n):
+                    if not isinstance(C[i][j], SVal):
+                        row.append(int(C[i][j]))
+                    else:
+                        v = core.fresh_int('ci', 0, None)
+                        ctx.add(core.to_z3_real(C[i][j]) == z3.ToReal(core.to_z3_int(v)))
+                        row.append(v)
+                Ci.append(row)
+            C = Ci
+        A = funcs.np_array(C, dtype=int if int_counts else float)
         A0 = A.copy()
+        arg = A if container is None else ssp.CLASSES[container](A)
+        stored0 = list(arg._data.cells()) if container is not None else None
         exc = None
         try:
-            Cout, T, pi = getattr(b, which)(A, prior_counts=pr, calculate_eq_probs=eq)
-            Tl = [[_raw(T)[i, j] for j in range(n)] for i in range(n)]
-            Cl = [[_raw(Cout)[i, j] for j in range(n)] for i in range(n)]
+            Cout, T, pi = getattr(b, which)(arg, prior_counts=pr, calculate_eq_probs=eq)
+            Td = T.toarray() if isinstance(T, ssp.SymSp) else T
+            Cd = Cout.toarray() if isinstance(Cout, ssp.SymSp) else Cout
+            Tl = [[_raw(Td)[i, j] for j in range(n)] for i in range(n)]
+            Cl = [[_raw(Cd)[i, j] for j in range(n)] for i in range(n)]
             pil = cells(pi) if pi is not None else None
+            if container is None:
+                type_ok = isinstance(T, SArr) and isinstance(Cout, SArr)
+            elif prior:
+                # adding prior counts to a sparse matrix legitimately densifies it
+                type_ok = (type(T) is type(arg) or isinstance(T, SArr)) and (type(Cout) is type(arg) or isinstance(Cout, SArr))
+            else:
+                type_ok = type(T) is type(arg) and type(Cout) is type(arg)
         except Exception as e:
+            if os.environ.get('VERIF_DEBUG'):
+                import traceback
+                traceback.print_exc()
             exc = e
 
         def oracle(C_, pr_, Cout_, T_, pi_, type_ok):
@@ -115,8 +148,13 @@ def builder_job(which, n, prior=False, eq=True, zero_rows=False, pattern=None):
         def witness(model):
             Cc = [[float(ev(model, x)) if isinstance(x, SVal) else float(x) for x in row] for row in C]
             pc = float(ev(model, pr)) if pr is not None else None
-            out = {'inputs': {'builder': which, 'counts': Cc, 'prior_counts': pc, 'calculate_eq_probs': eq}}
-            Ac = np.array(Cc)
+            out = {'inputs': {'builder': which, 'counts': Cc, 'prior_counts': pc, 'calculate_eq_probs': eq,
+                              'container': container or 'ndarray', 'element_type': 'int64' if int_counts else 'float64'}}
+            Ac = np.array(Cc).astype(int) if int_counts else np.array(Cc)
+            if container is not None:
+                import scipy.sparse
+                Ac = getattr(scipy.sparse, container + '_matrix')(Ac)
+            dn2 = lambda x: np.asarray(x.toarray() if hasattr(x, 'toarray') else x)
             with core.concrete_mode():
                 try:
                     Co2, T2, pi2 = getattr(b, which)(Ac, prior_counts=pc, calculate_eq_probs=eq)
@@ -124,13 +162,18 @@ def builder_job(which, n, prior=False, eq=True, zero_rows=False, pattern=None):
                     out.update(exception=repr(e), out=None, violated=['raises ' + type(e).__name__],
                                signature='exception:' + type(e).__name__)
                     return out
-            out['out'] = {'C': np.asarray(Co2).tolist(), 'T': np.asarray(T2).tolist(),
-                          'pi': None if pi2 is None else [float(x) for x in pi2]}
+            out['out'] = {'C': dn2(Co2).tolist(), 'T': dn2(T2).tolist(),
+                          'pi': None if pi2 is None else [float(x) for x in np.asarray(pi2).reshape(-1)]}
             Tol.TOL = 1e-6
-            bad = run_oracle(oracle(tolm(Cc), Tol(pc) if pc is not None else None, tolm(np.asarray(Co2).tolist()),
-                                    tolm(np.asarray(T2).tolist()), None if pi2 is None else tolv(pi2),
-                                    type(T2) is np.ndarray and type(Co2) is np.ndarray))
-            if Ac.tolist() != Cc:
+            if container is None:
+                tok = type(T2) is np.ndarray and type(Co2) is np.ndarray
+            elif pc is not None:
+                tok = (type(T2) is type(Ac) or type(T2) is np.ndarray) and (type(Co2) is type(Ac) or type(Co2) is np.ndarray)
+            else:
+                tok = type(T2) is type(Ac) and type(Co2) is type(Ac)
+            bad = run_oracle(oracle(tolm(Cc), Tol(pc) if pc is not None else None, tolm(dn2(Co2).tolist()),
+                                    tolm(dn2(T2).tolist()), None if pi2 is None else tolv(np.asarray(pi2).reshape(-1)), tok))
+            if dn2(Ac).tolist() != Cc:
                 bad.append('caller-matrix-modified')
             if zero_rows or pattern is not None:
                 # same arguments, different heap history: free NaN/inf-filled blocks of the sizes the builder allocates
@@ -147,12 +190,18 @@ def builder_job(which, n, prior=False, eq=True, zero_rows=False, pattern=None):
         if exc is not None:
             return PathOut([('no-exception', False)], {}, witness, exc=type(exc).__name__,
                            desc='raises %s: %s' % (type(exc).__name__, str(exc)[:100]))
-        obs = oracle(C, pr, Cl, Tl, pil, isinstance(T, SArr) and isinstance(Cout, SArr))
+        obs = oracle(C, pr, Cl, Tl, pil, type_ok)
         from harness.C18 import independent_of_uninitialised
-        indep, ng = independent_of_uninitialised(ctx, [c for c in T.cells() if isinstance(c, core.SFloat)])
+        indep, ng = independent_of_uninitialised(ctx, [c for c in Td.cells() if isinstance(c, core.SFloat)])
         obs.append(('result-independent-of-uninitialised-memory', indep))
-        obs.append(('caller-matrix-unmodified', conj([x == y for x, y in zip(A.cells(), A0.cells())])))
-        return PathOut(obs, {'C': Cout, 'T': T, 'pi': pi}, witness, desc='%s n=%d' % (which, n))
+        if container is None:
+            obs.append(('caller-matrix-unmodified', conj([x == y for x, y in zip(A.cells(), A0.cells())])))
+        else:
+            now = arg.toarray()
+            obs.append(('caller-matrix-unmodified', conj([x == y for x, y in zip(now.cells(), A0.cells())] +
+                                                          [x == y for x, y in zip(arg._data.cells(), stored0)])
+                        if len(arg._data.cells()) == len(stored0) else False))
+        return PathOut(obs, {'C': Cd, 'T': Td, 'pi': pi}, witness, desc='%s n=%d %s' % (which, n, container or ''))
     return path
 
 
@@ -242,4 +291,18 @@ def jobs(tier):
     add('normalize,n=2,periodic-2-cycle,eq', which='normalize', n=2, eq=True, pattern=[[0, 1], [1, 0]])
     add('normalize,n=3,periodic-3-cycle,eq', which='normalize', n=3, eq=True, pattern=[[0, 1, 0], [0, 0, 1], [1, 0, 0]])
     add('normalize,n=3,bipartite,eq', which='normalize', n=3, eq=True, pattern=[[0, 0, 1], [0, 0, 1], [1, 1, 0]])
+    # every scipy.sparse container (symbolic shadow, symnp/sparse.py), integer counts as assigns_to_counts produces them and
+    # float counts (weighted / already converted), with a sparsity pattern
+    J.append(dict(module='harness.sparse_conf', func='conformance_job', name='sparse-shadow-conformance', kwargs={}, sig_prefix='trusted-base',
+                  deadline_s=250 if q else 1500))
+    tri = [[1, 1, 0], [1, 1, 1], [0, 1, 1]]
+    for fmt in ('csr', 'csc', 'coo', 'lil', 'dok', 'dia', 'bsr'):
+        for which in ('normalize', 'transpose'):
+            for ints in (True, False):
+                add('%s,n=2,%s,%s,no-eq' % (which, fmt, 'int' if ints else 'float'), which=which, n=2, eq=False, container=fmt, int_counts=ints)
+            add('%s,n=3,%s,tridiagonal,int,no-eq' % (which, fmt), which=which, n=3, eq=False, container=fmt, int_counts=True, pattern=tri)
+        add('transpose,n=2,%s,float,eq' % fmt, which='transpose', n=2, eq=True, container=fmt)
+        add('normalize,n=2,%s,float,prior,no-eq' % fmt, which='normalize', n=2, eq=False, prior=True, container=fmt)
+        if not q or fmt in ('csr', 'lil'):
+            add('normalize,n=2,%s,float,eq' % fmt, which='normalize', n=2, eq=True, container=fmt)
     return J
